@@ -192,7 +192,12 @@ Section Bind.
   }.
   Record parameters := mkParams {
     pm_height : Z;
-    pm_meta : option cmt_params;   (* None: proto Unmarshal failed *)
+    pm_meta : option cmt_params;   (* None: proto Unmarshal failed.  Some: Unmarshal succeeded AND all four
+                                      sub-messages (Block, Evidence, Validator, Version) are present; when one
+                                      is omitted the code does not return at all: ConsensusParamsFromProto
+                                      (core.go:653) dereferences a nil pointer.  That input has no verdict in
+                                      this model; the harness reports it as finding
+                                      C19:verifyParameters-panics-on-omitted-submessage. *)
     pm_params_cbor : bytes;        (* cbor.Marshal(params.Parameters) *)
   }.
   (* core.go:644-674; [state_params] = cbor.Marshal of the consensus parameters
